@@ -42,24 +42,22 @@ pub(crate) enum Directive {
 pub(crate) fn parse_directive(jsx_attr: &JSXAttr, is_component: bool) -> Directive {
     let (name, argument, splitted) = match &jsx_attr.name {
         JSXAttrName::Ident(ident) => {
+            // `v-name_a_b`: every `_` suffix of a plain name is a modifier
             let mut splitted = ident
                 .sym
                 .trim_start_matches('v')
                 .trim_start_matches('-')
                 .split('_');
             (
-                splitted.next().unwrap_or(&*ident.sym).to_ascii_lowercase(),
-                splitted.next(),
+                lower_first_letter(splitted.next().unwrap_or(&*ident.sym)),
+                None,
                 splitted,
             )
         }
         JSXAttrName::JSXNamespacedName(JSXNamespacedName { ns, name, .. }) => {
             let mut splitted = name.sym.split('_');
             (
-                ns.sym
-                    .trim_start_matches('v')
-                    .trim_start_matches('-')
-                    .to_ascii_lowercase(),
+                lower_first_letter(ns.sym.trim_start_matches('v').trim_start_matches('-')),
                 Some(splitted.next().unwrap_or(&*name.sym)),
                 splitted,
             )
@@ -141,6 +139,20 @@ pub(crate) fn parse_directive(jsx_attr: &JSXAttr, is_component: bool) -> Directi
         modifiers: modifiers.and_then(|modifiers| transform_modifiers(modifiers, false)),
         value,
     })
+}
+
+/// `MyDir` -> `myDir`: only the first letter of a directive name is lower-cased.
+fn lower_first_letter(name: &str) -> String {
+    let mut chars = name.chars();
+    match chars.next() {
+        Some(first) => {
+            let mut lowered = String::with_capacity(name.len());
+            lowered.push(first.to_ascii_lowercase());
+            lowered.push_str(chars.as_str());
+            lowered
+        }
+        None => String::new(),
+    }
 }
 
 fn parse_modifiers(exprs: &[Option<ExprOrSpread>]) -> BTreeSet<Atom> {
